@@ -95,7 +95,9 @@ def r2(run: Run, src, g):
     fi = base.methods.get('get')
     if fi is None:
         raise AnalysisError('C05.R2', 'CompositeBaseToken.get not found')
-    fn = fi.node
+    from ..inline import inline_methods, class_resolver, split_tuple_assign, coalesce_copies
+    # helpers of the matcher are read in place: what a helper hands back in a tuple is the caller's variable
+    fn = coalesce_copies(split_tuple_assign(inline_methods(fi.node, class_resolver(src, base, fi), depth=2, exclude={'get', 'get_token_sets', 'subclasses', '__init__'})))
     loc = loc_of(fi.module.path, fn)
     params = fi.params
     if len(params) < 2:
